@@ -120,6 +120,7 @@ var oddities = []string{
 	"for((let) in a);", "for((let).x of y);", "for(let\nin a);", "for((let)[0];;);", "(let)[0]", "let\nlet", "if(a)\nlet\nx", "(let)\n[a]=1", "let\nyield", "(let[0])", "x = let", "let in x", "for(let of;;);",
 	"yield\n*2", "return_\nx", "a\n++b", "x\n/re/g", "a = b\n/c/d", "a\n(b)", "a\n[b]", "a++\n(b)", "x = y => {}\n(z)", "x = async y => {}\n[z]", "++a ** 2", "(-a) ** 2", "(a, b) => ({}).x", "(a) => ({})",
 	"of = of\nof", "for(of of of);", "for(var of of of);", "get\nset", "x = {get\n[a](){}}", "static\nx", "class A{static\nstatic(){}}", "class A{'constructor'(){}}", "await\nx", "(await)", "yield\n", "x = {await, yield, async, let, of}",
+	"`${a++\n`b`", "`${a=>{}\n`b`}`", "x = `${a}\n`b``", "a\n`b`", "a++\n`b${c}d`", "if (a) if (b) c;\nelse d", "if (a) { if (b) c; } else d", "if (a) if (b) c; else d; else e",
 	"a = 1 .toString()", "a = 1..toString()", "a = 1_0 .b", "a = 0x1.b", "a = - -b", "a = + +b", "a = - --b", "a = +(+b)", "a = b-- - --c", "a = b++ + ++c", "a = typeof typeof b", "a = !(!b)", "new (a())", "new (a.b())()", "new a().b", "(new a).b", "new (import(a))",
 	"a = b ? (c, d) : e", "a = (b, c)", "for((a in b);;);", "for(var a = (b in c);;);", "for(a = (x => y in z);;);", "x = (function(){}).name", "x = (class{}).name", "({}).x", "({a} = b)", "[a] = b", "(function(){})()", "(class{})", "(() => {})()", "`${{}}`",
 }
